@@ -151,3 +151,138 @@ def leak_flow(cd, area, p):
     if p <= 0:
         return 0.0
     return cd * area * math.sqrt(2.0 * G * p)
+
+
+# ---------------------------------------------------------------- control timeline (C04)
+def clock_of(t, opts):
+    return (int(t) + int(opts.get('start_clocktime', 0))) % 86400
+
+
+def _rel(x, rel, thr):
+    if rel == '=':
+        return x == thr
+    if rel == '>=':
+        return x >= thr
+    if rel == '<=':
+        return x <= thr
+    if rel == '>':
+        return x > thr
+    if rel == '<':
+        return x < thr
+    raise ValueError(rel)
+
+
+def time_cond_at(cond, t, opts):
+    """truth of a (compound) time condition at a rule evaluation instant t; '=' thresholds lie on the rule grid"""
+    k = cond['t']
+    if k == 'and':
+        return time_cond_at(cond['a'], t, opts) and time_cond_at(cond['b'], t, opts)
+    if k == 'or':
+        return time_cond_at(cond['a'], t, opts) or time_cond_at(cond['b'], t, opts)
+    if k == 'simtime':
+        if cond.get('repeat') and cond['rel'] == '=':
+            return t >= cond['thr'] and (t - cond['thr']) % int(cond['repeat']) == 0
+        return _rel(int(t), cond['rel'], int(cond['thr']))
+    if k == 'clock':
+        return _rel(clock_of(t, opts), cond['rel'], int(cond['thr']))
+    raise ValueError('not a time condition: %r' % (cond,))
+
+
+def simple_instants(cond, opts):
+    """instants in [0, duration] at which a simple AT TIME / AT CLOCKTIME control fires"""
+    dur = int(opts['duration'])
+    if cond['t'] == 'simtime':
+        thr = int(cond['thr'])
+        rep = int(cond.get('repeat') or 0)
+        out = []
+        t = thr
+        while 0 <= t <= dur:
+            out.append(t)
+            if not rep:
+                break
+            t += rep
+        return out
+    if cond['t'] == 'clock':
+        t = (int(cond['thr']) - int(opts.get('start_clocktime', 0))) % 86400
+        out = []
+        while t <= dur:
+            out.append(t)
+            t += 86400
+        return out
+    raise ValueError('not a simple time condition: %r' % (cond,))
+
+
+def action_value(a):
+    if a['attr'] == 'status':
+        return {'CLOSED': 0, 'OPEN': 1, 'ACTIVE': 2}[a['value']]
+    return float(a['value'])
+
+
+def control_timeline(scn):
+    """Reference timeline of every (link, attr) commanded by time controls and time rules.
+    Returns (initial, changes, ties): initial {target: value}; changes = sorted list of (t, {target: new value}) holding only
+    real changes; ties = set of (t, target) where two actions of equal priority and different value meet (not ordered by the
+    statement -> the caller skips them)."""
+    o = scn['options']
+    dur = int(o['duration'])
+    rs = int(o.get('rule_step', 360))
+    links = {l['id']: l for l in scn['links']}
+    rules = [c for c in scn.get('controls', []) if c['kind'] == 'rule']
+    simples = [c for c in scn.get('controls', []) if c['kind'] == 'simple']
+    state = {}
+    for c in scn.get('controls', []):
+        for a in c['then'] + c.get('else', []):
+            l = links[a['link']]
+            if a['attr'] == 'status':
+                state[(a['link'], 'status')] = {'CLOSED': 0, 'OPEN': 1, 'ACTIVE': 2}[l.get('status', 'OPEN')]
+            elif a['attr'] == 'setting':
+                state[(a['link'], 'setting')] = float(l['setting'])
+            else:
+                state[(a['link'], a['attr'])] = float(l.get('speed', 1.0))
+    initial = dict(state)
+    inst = {}
+    for c in simples:
+        for t in simple_instants(c['cond'], o):
+            inst.setdefault(t, []).append(c)
+    times = set(inst)
+    if rules:
+        times |= set(range(rs, dur + 1, rs))
+    changes = []
+    ties = set()
+    for t in sorted(times):
+        acts = []       # (priority, order, target, value) in execution order
+        if rules and t > 0 and t % rs == 0:
+            for c in sorted(rules, key=lambda c: c.get('priority', 3)):
+                branch = c['then'] if time_cond_at(c['cond'], t, o) else c.get('else', [])
+                for a in branch:
+                    acts.append((c.get('priority', 3), 'rule', (a['link'], a['attr']), action_value(a)))
+        for c in sorted(inst.get(t, []), key=lambda c: c.get('priority', 3)):
+            a = c['then'][0]
+            acts.append((c.get('priority', 3), 'simple', (a['link'], a['attr']), action_value(a)))
+        new = {}
+        best = {}
+        for pr, kind, tg, val in acts:
+            if tg in best and best[tg][0] == pr and best[tg][1] == kind and best[tg][2] != val:
+                ties.add((t, tg))
+            if tg in best and best[tg][1] != kind and best[tg][2] != val:
+                ties.add((t, tg))       # a rule and a simple control meet: the statement does not order the two kinds
+            new[tg] = val
+            best[tg] = (pr, kind, val)
+        ch = {}
+        for tg, val in new.items():
+            if state[tg] != val:
+                state[tg] = val
+                ch[tg] = val
+        if ch:
+            changes.append((t, ch))
+    return initial, changes, ties
+
+
+def timeline_value(initial, changes, target, t):
+    v = initial[target]
+    for tc, ch in changes:
+        if tc > t:
+            break
+        if target in ch:
+            v = ch[target]
+    return v
